@@ -274,7 +274,9 @@ func Run(prog []func(), prefix []int, mode Mode, rng *rand.Rand, maxPreempt int,
 		}()
 	}
 	// absorb reports from threads: id >= 0 parked, id < 0 finished
+	progress := 0
 	absorb := func(id int) {
+		progress++
 		if id >= 0 {
 			e.threads[id].state = stParked
 		} // done state is set by the thread itself
@@ -343,21 +345,12 @@ func Run(prog []func(), prefix []int, mode Mode, rng *rand.Rand, maxPreempt int,
 		}
 		if len(enabled) == 0 {
 			if anyBlocked {
-				// a thread blocked in a real Lock() may be about to get through
+				// a thread blocked in a real Lock() may be about to get through; if nothing moves for a while, the
+				// parked threads wait for locks held by blocked threads and the blocked ones for locks held by parked
+				// ones (or by each other): a deadlock of the program
+				before := progress
 				drain(100 * time.Millisecond)
-				still := true
-				for _, u := range e.threads {
-					if u.state == stParked || u.state == stRunning {
-						still = false
-					}
-				}
-				done := true
-				for _, u := range e.threads {
-					if u.state != stDone {
-						done = false
-					}
-				}
-				if done || !still {
+				if progress != before {
 					continue
 				}
 			}
@@ -399,15 +392,17 @@ func Run(prog []func(), prefix []int, mode Mode, rng *rand.Rand, maxPreempt int,
 		}
 		op := t.pendOp
 		e.mu.Unlock()
-		t.state = stRunning
-		e.single = t
-		t.gate <- struct{}{}
-		// wait for t (and for threads that were blocked in real locks and got through meanwhile)
+		// everything that looks at the thread's announcement is evaluated BEFORE the thread is released: once it
+		// runs it overwrites t.pending in its next hook
 		speculative := cspec[idx]
 		truthfulMu.Lock()
 		slowOp := unannounced[op]
 		truthfulMu.Unlock()
 		risky := speculative || slowOp || (t.pending != nil && (!reallyFreeCached(t) || !sureFree(t.pending)))
+		t.state = stRunning
+		e.single = t
+		t.gate <- struct{}{}
+		// wait for t (and for threads that were blocked in real locks and got through meanwhile)
 		var deadline <-chan time.Time
 		if risky {
 			deadline = time.After(10 * time.Second)
